@@ -20,13 +20,16 @@ SPEC = dict(
     design_ref="DESIGN.md section 6 (C16)",
     quick_s=60, thorough_s=600,
     rule=("one run = one tape: stratum (general mix | concurrency: generous per-minute limits, bursts of one peer's held "
-          "dial-data requests | one tight per-minute limit: global, per-peer or dial-data), limits (global 1-12, per-peer 1-8, "
-          "dial-data 1-8 per minute, 1-3 concurrent per peer), 2-5 clients (optionally two on one IP, optionally announcing the "
+          "dial-data requests | one tight per-minute limit: global, per-peer or dial-data | slot accounting: one peer keeps "
+          "limit-1 requests in service, lets 1-2 more fail at a drawn stage, then opens limit+1 new ones), limits (global 1-14, "
+          "per-peer 1-12, dial-data 1-10 per minute, 1-3 concurrent per peer), 2-5 clients (optionally two on one IP, optionally announcing the "
           "victim's address through identify), link chunking whole|fragmented, optional latencies, 1-14 requests at drawn gaps "
           "(0..75 s) each with a drawn client, address list (14 entry kinds, length 0|1|2-4|50-52|120), request shape (normal | "
           "wrong first message | half a request then pause then rest or reset | oversized), dial-data script (correct | short "
-          "by 1..n-150 | tiny messages | varied sizes | non-protobuf frames | early close/reset | message > 8192 B; pauses "
-          "before/in the middle) and dial-back handler (answer | delayed | reset | close); faults_fired counts the byzantine "
+          "by 1..n-150 | tiny messages | varied sizes | non-protobuf frames | hollow frames announcing more data than they "
+          "carry | early close/reset | message > 8192 B; pauses before/in the middle), dial-back handler (answer | delayed | "
+          "reset | close) and request-stream reset stage (never | at the dial-back nonce | after the dial-back answer | after "
+          "the request | after the dial data); dial-data bytes are counted on the wire of the raw client; faults_fired counts the byzantine "
           "behaviours that were actually executed; non-trivial = the dialer host dialled at least once and at least two "
           "requests were answered; distinct = distinct (limits, per-request outcome incl. requested/written dial-data bytes "
           "and statuses, dial log, schedule hash)"),
